@@ -27,6 +27,24 @@ def gen_cases_for(seed_, n):
             pc.adjust_opts(jc, opts)
         cases.append({"i": i, "profile": jc["profile"], "models": [["Root", jc["samples"]]] + pc.maybe_second_root(rng, jc["samples"], jc["profile"], p=0.2),
                       "opts": opts})
+    # documents at and beyond what CPython can express: 200 nested brackets in an annotation, 100 indentation levels (nested layout)
+    for j, (kind, d) in enumerate([("list", 199), ("list", 200), ("list", 205), ("list", 260), ("chain", 97), ("chain", 99), ("chain", 101), ("chain", 120)]):
+        rng = rng_for(PROP, "limits", seed_, j)
+        if kind == "list":
+            v = 1
+            for _ in range(d):
+                v = [v]
+            smp = {"deep": v, "k": 1}
+        else:
+            v = {"leaf": 1}
+            for lvl in reversed(range(d)):
+                v = {f"k{lvl}": v, "n": lvl}
+            smp = v
+        opts = gen.options(rng, [smp], allow_dict_opts=False)
+        opts["merge"] = []
+        if kind == "chain":
+            opts["flat"] = j % 2 == 1
+        cases.append({"i": n + j, "profile": "limits", "models": [["Root", [smp]]], "opts": opts})
     return cases
 
 
@@ -35,10 +53,33 @@ ROOT_CAUSES = ("name-shadows-import", "class-field-name-clash", "duplicate-field
 PYD_RESERVED = re.compile(r'Field name "(\w+)" shadows a BaseModel attribute')
 
 
+def nesting(samples):
+    """(deepest list-in-list nesting, deepest object-in-object nesting) of the sample documents, without recursion"""
+    deep_l = deep_o = 0
+    stack = [(s, 0, 0) for s in samples]
+    while stack:
+        v, nl, no = stack.pop()
+        if isinstance(v, list):
+            deep_l = max(deep_l, nl + 1)
+            stack.extend((x, nl + 1, no) for x in v)
+        elif isinstance(v, dict):
+            deep_o = max(deep_o, no + 1)
+            stack.extend((x, 0, no + 1) for x in v.values())
+    return deep_l, deep_o
+
+
 def refine(w, case):
-    """sub-classify load failures whose cause is a name reserved by the target framework"""
+    """sub-classify load failures whose cause is a name reserved by the target framework, or a nesting limit of CPython itself"""
     m = w["mechanism"]
     msg = w.get("exc_msg", "") or w["msg"]
+    if m == "load-failure:compile:SyntaxError" and "too many nested parentheses" in msg:
+        if nesting([x for _n, ss in case["models"] for x in ss])[0] >= 195:
+            w["mechanism"] = "python-limit:annotation-nested-over-200-brackets"
+        return w
+    if m == "load-failure:compile:IndentationError" and "too many levels of indentation" in msg and not case["opts"]["flat"]:
+        if nesting([x for _n, ss in case["models"] for x in ss])[1] >= 98:
+            w["mechanism"] = "python-limit:classes-nested-over-99-levels"
+        return w
     if m.startswith("load-failure:exec:NameError") and PYD_RESERVED.search(msg):
         w["mechanism"] = "name-reserved-by-framework:pydantic-basemodel-attribute"
         w["name"] = PYD_RESERVED.search(msg).group(1)
@@ -89,7 +130,7 @@ def main():
                 "plural/singular pairs; never starting with digit/underscore) as scalar-, object- and list-valued keys; x 5 "
                 "frameworks x flat/nested x converters/meta/unicode/literal options. Each emitted text is compiled, executed "
                 "with only its own imports, every annotation evaluated in its scope, and an ast census taken. nested layout "
-                "judged only on tree-shaped graphs. non-trivial = >=2 classes and >=1 quoted forward reference",
+                "judged only on tree-shaped graphs. Plus 8 documents at / beyond CPython's own limits (199-260 nested lists, 97-120 nested objects). non-trivial = >=2 classes and >=1 quoted forward reference",
                 ["sqlmodel is a stub package (/verif/stubs/sqlmodel)"])
     results, infra = run_shards(PROP, cases, timeout_per_case=8)
     v.infra = infra
